@@ -496,7 +496,9 @@ constexpr auto views(int seed) -> long long
     auto l4   = st.last<4>();
     auto f12  = st.first<12>();
     auto zero = st.subspan<12>();            // span<int, 0> at the end
+#if defined(C02_CE)   // a wrong extent of the result type breaks only variant ce; the run-time observation is op sspan (sub.cpp)
     static_assert(decltype(tail)::extent == 3 && decltype(mid)::extent == 3 && decltype(l4)::extent == 4 && decltype(zero)::extent == 0);
+#endif
     long long st_acc = static_cast<long long>(tail.size() + mid.size() + l4.size() + f12.size() + zero.size());
     for (auto x : tail) { st_acc += x; }
     for (auto x : l4) { st_acc += x; }
